@@ -255,6 +255,12 @@ type env struct {
 	// script (one-shot): the next DELETE statement fails, which makes the transaction it is part of fail
 	failDelete    bool
 	deletesFailed int
+	// the names whose views (ListDIDs, Exists, List, FindServices) are taken with every snapshot; set by the pass
+	watch   []string // names the sequence creates subjects under: observed before, while and after the subject exists
+	ghosts  []ghost  // look-alike names under which no subject is ever created
+	probeN  int      // look-alike names probed per snapshot, in rotation
+	probeAt int
+	probes  int
 }
 
 // the sets of enabled DID methods (didmethods in the node configuration)
@@ -379,9 +385,22 @@ type subjSnap struct {
 	DIDs   []didSnap
 }
 
+// nameView is what the manager says about one name.
+type nameView struct {
+	Ghost    bool   `json:",omitempty"` // no subject was ever created under the name
+	Class    string `json:",omitempty"` // how a ghost name was derived
+	Listed   bool   // ListDIDs returned a set
+	DIDs     []string
+	Exists   bool
+	Services bool `json:",omitempty"` // ghost names only: FindServices did not say "subject not found"
+}
+
 type snapshot struct {
 	Subjects  map[string]subjSnap // full observation of the subject the operation is about
 	Rows      map[string][]string // every subject in the did table -> its DID / version / row id list (one query): what must not move for the others
+	IDs       []string            // every row of the did table, whatever its subject column says
+	Names     map[string]nameView // the watched names and the look-alike names probed this time
+	All       map[string][]string // Manager.List(): subject -> DIDs
 	Net       map[string]string   // did:nuts DID -> document hash on the network side
 	ChangeLog int64
 	DIDRows   int64
@@ -449,9 +468,78 @@ func (e *env) snapSubject(name string) subjSnap {
 	return out
 }
 
+// view asks the manager about one name.
+func (e *env) view(name string) nameView {
+	var v nameView
+	var err error
+	if v.Exists, err = e.mgr.Exists(ctx(), name); err != nil {
+		panic(fmt.Sprintf("Exists(%q): %v", name, err))
+	}
+	dids, err := e.mgr.ListDIDs(ctx(), name)
+	if err != nil {
+		if !errors.Is(err, didsubject.ErrSubjectNotFound) {
+			panic(fmt.Sprintf("ListDIDs(%q): %v", name, err))
+		}
+		return v
+	}
+	v.Listed = true
+	for _, id := range dids {
+		v.DIDs = append(v.DIDs, id.String())
+	}
+	sort.Strings(v.DIDs)
+	return v
+}
+
+// names takes the views of every watched name and of the next look-alike names in the rotation.
+func (e *env) names(s *snapshot, target string) {
+	s.Names, s.All = map[string]nameView{}, map[string][]string{}
+	for _, n := range e.watch {
+		if n == target {
+			// asked a moment ago (snapSubject)
+			ss := s.Subjects[target]
+			v := nameView{Listed: ss.Listed, Exists: ss.Exists}
+			for _, d := range ss.DIDs {
+				v.DIDs = append(v.DIDs, d.DID)
+			}
+			sort.Strings(v.DIDs)
+			s.Names[n] = v
+			continue
+		}
+		s.Names[n] = e.view(n)
+	}
+	for i := 0; i < e.probeN && i < len(e.ghosts); i++ {
+		g := e.ghosts[e.probeAt%len(e.ghosts)]
+		e.probeAt++
+		e.probes++
+		v := e.view(g.Name)
+		v.Ghost, v.Class = true, g.Class
+		if e.probeN > 1 {
+			if _, err := e.mgr.FindServices(ctx(), g.Name, nil); !errors.Is(err, didsubject.ErrSubjectNotFound) {
+				v.Services = true
+			}
+		}
+		s.Names[g.Name] = v
+	}
+	if len(e.watch) == 0 {
+		return
+	}
+	all, err := e.mgr.List(ctx())
+	if err != nil {
+		panic(fmt.Sprintf("List: %v", err))
+	}
+	for name, dids := range all {
+		s.All[name] = []string{}
+		for _, id := range dids {
+			s.All[name] = append(s.All[name], id.String())
+		}
+		sort.Strings(s.All[name])
+	}
+}
+
 func (e *env) snap(target string) *snapshot {
 	s := &snapshot{Subjects: map[string]subjSnap{}, Rows: map[string][]string{}, Net: map[string]string{}, Ledger: len(e.net.ledger)}
 	s.Subjects[target] = e.snapSubject(target)
+	e.names(s, target)
 	var rows []struct {
 		Subject string
 		ID      string
@@ -467,6 +555,9 @@ func (e *env) snap(target string) *snapshot {
 			line = fmt.Sprintf("%s v%d %s", row.ID, *row.Version, *row.Vid)
 		}
 		s.Rows[row.Subject] = append(s.Rows[row.Subject], line)
+		if len(s.IDs) == 0 || s.IDs[len(s.IDs)-1] != row.ID {
+			s.IDs = append(s.IDs, row.ID) // ordered by id
+		}
 		if _, done := s.Net[row.ID]; !done && strings.HasPrefix(row.ID, "did:nuts:") {
 			s.Net[row.ID] = "unresolvable"
 			if _, meta, err := e.store.Resolve(did.MustParseDID(row.ID), &resolver.ResolveMetadata{AllowDeactivated: true}); err == nil {
@@ -496,7 +587,9 @@ type op struct {
 	Subject  string `json:"subject,omitempty"`
 	Type     string `json:"type,omitempty"`
 	Endpoint string `json:"endpoint,omitempty"`
-	Old      string `json:"replaces,omitempty"` // endpoint of the service that update/delete addresses
+	Old      string `json:"replaces,omitempty"`   // endpoint of the service that update/delete addresses
+	Twin     string `json:"looks_like,omitempty"` // operation on a name no subject has: the existing subject the name was derived from
+	Variant  string `json:"variant,omitempty"`    // ... and how it was derived
 }
 
 const (
@@ -527,8 +620,25 @@ var (
 	kDeadDelSvc = kDelSvc + afterDeactivation
 )
 
+// operations addressed to a name under which no subject was ever created, but which looks like the name of an existing subject (other letter case, a
+// character replaced by a wildcard of LIKE/GLOB/regular expressions, a prefix, padding ...): a name maps to at most one set of DIDs, this one to none, so
+// no document of any subject may change
+const unknownName = "unknown-name-"
+
+var (
+	kGhostAddVM      = unknownName + kAddVM
+	kGhostAddSvc     = unknownName + kAddSvc
+	kGhostUpdSvc     = unknownName + kUpdSvc
+	kGhostDelSvc     = unknownName + kDelSvc
+	kGhostDeactivate = unknownName + kDeactivate
+)
+
+func isGhost(o op) bool { return strings.HasPrefix(o.Kind, unknownName) }
+
 // base is the kind of call an operation is; onDeactivated tells that it addresses a deactivated subject.
-func base(kind string) string { return strings.TrimSuffix(kind, afterDeactivation) }
+func base(kind string) string {
+	return strings.TrimPrefix(strings.TrimSuffix(kind, afterDeactivation), unknownName)
+}
 func onDeactivated(o op) bool { return strings.HasSuffix(o.Kind, afterDeactivation) }
 func refusedByMethod(k string) bool {
 	return k == kDupSvc || k == kDeactivate2 || strings.HasSuffix(k, afterDeactivation)
@@ -637,26 +747,171 @@ func (c config) runs(s site) bool {
 	return false
 }
 
+// ---- subject names ---------------------------------------------------------------------------------------------------------
+//
+// "A subject name maps to at most one set of DIDs": names are byte strings (the node accepts ^[a-zA-Z0-9._-]+$ for a new subject and takes any string in a
+// lookup). The subjects of one sequence get names of one family: legal names that differ from each other only in a way a sloppy comparison does not see.
+
+type family struct {
+	Name  string
+	About string
+	names func(idx int) []string // >= 3 legal names; the first one is the pivot (it holds the character/form the family is about)
+}
+
+func formats(fs ...string) func(int) []string {
+	return func(idx int) []string {
+		out := make([]string, len(fs))
+		for i, f := range fs {
+			out[i] = f
+			if strings.Contains(f, "%d") {
+				out[i] = fmt.Sprintf(f, idx)
+			}
+		}
+		return out
+	}
+}
+
+var families = []family{
+	{"plain", "clearly distinct names", formats("subject-%d.0", "subject-%d.1", "subject-%d.2")},
+	{"underscore", "'_' (legal in a name) is the single-character wildcard of SQL LIKE", formats("ward_%d", "ward-%d", "ward.%d", "wardX%d")},
+	{"letter-case", "LIKE and case-insensitive collations fold ASCII case", formats("Clinic-%d", "clinic-%d", "CLINIC-%d", "cLINIC-%d")},
+	{"prefix", "one name is the beginning of the other (prefix match, LIKE 'x%%')", formats("org%d", "org%d0", "org%d00", "org%d.0")},
+	{"dot", "'.' (legal in a name) matches any character in a regular expression", formats("lab.%d", "labX%d", "lab-%d", "lab_%d")},
+	{"single-character", "names that consist of one character, wildcards among them", formats("_", ".", "-", "a", "A", "0")},
+	{"numeric", "names that are equal as numbers", formats("1", "01", "1.0", "1e0", "0x1", "001")},
+	{"long", "names longer than 255 characters that differ in the last one (truncating comparison or column)", func(idx int) []string {
+		stem := fmt.Sprintf("long-%d-", idx) + strings.Repeat("n", 290)
+		return []string{stem + "a", stem + "b", stem + "_"}
+	}},
+}
+
+// familyOf is a pure function of the sequence number; every family meets every node configuration (see configOf) as the sequence numbers grow.
+func familyOf(idx int) family { return families[(idx+idx/8)%len(families)] }
+
+type ghost struct{ Name, Class string }
+
+func swapCase(s string) string {
+	b := []byte(s)
+	for i, c := range b {
+		switch {
+		case c >= 'a' && c <= 'z':
+			b[i] = c - 32
+		case c >= 'A' && c <= 'Z':
+			b[i] = c + 32
+		}
+	}
+	return string(b)
+}
+
+// lookalikes derives from a name the names a lookup could confuse with it; a pure function of the name. Most of them are not legal names for a NEW subject
+// (they are only used in lookups and in operations on an existing subject, which take any string).
+func lookalikes(name string) []ghost {
+	var out []ghost
+	seen := map[string]bool{name: true}
+	add := func(class, n string) {
+		if !seen[n] {
+			seen[n] = true
+			out = append(out, ghost{Name: n, Class: class})
+		}
+	}
+	add("case:upper", strings.ToUpper(name))
+	add("case:lower", strings.ToLower(name))
+	add("case:swapped", swapCase(name))
+	add("case:first-letter", swapCase(name[:1])+name[1:])
+	add("separators:underscore", strings.NewReplacer("-", "_", ".", "_").Replace(name))
+	add("separators:dash", strings.NewReplacer("_", "-", ".", "-").Replace(name))
+	add("separators:dot", strings.NewReplacer("_", ".", "-", ".").Replace(name))
+	positions := []int{0, len(name) / 2, len(name) - 1}
+	for i := 0; i < len(name) && len(positions) < 6; i++ {
+		if c := name[i]; c == '_' || c == '-' || c == '.' {
+			positions = append(positions, i)
+		}
+	}
+	for _, at := range positions {
+		for _, c := range []string{"_", "%", ".", "*", "?", "x"} {
+			add("character:"+c, name[:at]+c+name[at+1:])
+		}
+	}
+	add("like:any", "%")
+	add("like:begins-with", name[:(len(name)+1)/2]+"%")
+	add("like:ends-with", "%"+name[len(name)/2:])
+	add("like:every-character", strings.Repeat("_", len(name)))
+	add("glob:any", "*")
+	add("regex:any", ".*")
+	if len(name) > 1 {
+		add("prefix", name[:len(name)-1])
+		add("suffix", name[1:])
+	}
+	add("extension", name+"0")
+	add("padded:trailing-space", name+" ")
+	add("padded:leading-space", " "+name)
+	add("padded:trailing-newline", name+"\n")
+	add("empty", "")
+	add("sql:quote", name+"' OR ''='")
+	return out
+}
+
+// seqMeta says which names the subjects of a sequence have.
+type seqMeta struct {
+	Family string   `json:"name_family"`
+	Names  []string `json:"names"` // reserved for the subjects of the sequence, in order of creation (not every one needs to be created)
+}
+
+func (m seqMeta) reserved(name string) bool { return contains(m.Names, name) }
+
+// ghostsOf: the look-alikes of the sequence's names under which the sequence never creates a subject.
+func (m seqMeta) ghosts() []ghost {
+	var out []ghost
+	seen := map[string]bool{}
+	for _, n := range m.Names {
+		for _, g := range lookalikes(n) {
+			if !m.reserved(g.Name) && !seen[g.Name] {
+				seen[g.Name] = true
+				out = append(out, g)
+			}
+		}
+	}
+	return out
+}
+
 // genSequence is a pure function of the PRNG: a valid history over 1-3 subjects in which every operation is applicable when all earlier ones took effect.
-func genSequence(rnd *rand.Rand, idx int, cfg config) []op {
+func genSequence(rnd *rand.Rand, idx int, cfg config) ([]op, seqMeta) {
 	type subj struct {
 		name     string
+		label    string // used in service endpoints
 		services map[string]string
 		dead     bool
 		again    bool // a repeated deactivation is in the sequence
 		deadOps  int  // operations generated for it after its deactivation
 	}
 	nSubj := 1 + rnd.Intn(3)
+	if nSubj == 1 && idx%8 != 0 && idx%8 != 5 {
+		nSubj = 2 // sequences about a single subject (the longest histories per DID) are numbers 0 and 5 of 8, when the PRNG says so
+	}
 	length := 6 + rnd.Intn(5)
 	upgradeAt := -1
 	if cfg.Upgrade {
 		upgradeAt = 3 + rnd.Intn(3)
 	}
+	// the names: a random order of the family's names with the pivot among the first two, so that two subjects are always a look-alike pair and both
+	// orders of creation occur (the name with the wildcard first / second)
+	fam := familyOf(idx)
+	names := fam.names(idx)
+	pivot := names[0]
+	rnd.Shuffle(len(names), func(i, j int) { names[i], names[j] = names[j], names[i] })
+	for i, n := range names {
+		if n == pivot && i > 1 {
+			j := rnd.Intn(2)
+			names[i], names[j] = names[j], names[i]
+		}
+	}
+	meta := seqMeta{Family: fam.Name, Names: names[:nSubj]}
 	var subs []*subj
 	var seq []op
 	serial := 0
+	ghostOps := 0
 	create := func() {
-		s := &subj{name: fmt.Sprintf("subject-%d.%d", idx, len(subs)), services: map[string]string{}}
+		s := &subj{name: meta.Names[len(subs)], label: fmt.Sprintf("subject-%d.%d", idx, len(subs)), services: map[string]string{}}
 		subs = append(subs, s)
 		seq = append(seq, op{Kind: kCreate, Subject: s.name})
 	}
@@ -713,7 +968,7 @@ func genSequence(rnd *rand.Rand, idx int, cfg config) []op {
 				t = types[rnd.Intn(len(types))]
 				old = s.services[t]
 			}
-			ep := fmt.Sprintf("https://example.com/%s/late%d", s.name, serial)
+			ep := fmt.Sprintf("https://example.com/%s/late%d", s.label, serial)
 			switch rnd.Intn(4) {
 			case 0:
 				seq = append(seq, op{Kind: kDeadAddVM, Subject: s.name})
@@ -726,8 +981,8 @@ func genSequence(rnd *rand.Rand, idx int, cfg config) []op {
 			}
 			continue
 		}
-		if len(subs) < nSubj && (len(live) == 0 || rnd.Intn(4) == 0) {
-			create()
+		if len(subs) < nSubj && (len(live) == 0 || rnd.Intn(4) == 0 || (len(subs) == 1 && len(seq) >= 2)) {
+			create() // the second subject exists from the third operation on at the latest
 			continue
 		}
 		if len(live) == 0 {
@@ -740,19 +995,22 @@ func genSequence(rnd *rand.Rand, idx int, cfg config) []op {
 		}
 		sort.Strings(types)
 		serial++
-		c := rnd.Intn(16)
+		c := rnd.Intn(18)
+		if c >= 16 && ghostOps == 2 {
+			c = rnd.Intn(16)
+		}
 		if c == 6 && cfg.Start == setWeb {
 			c = 0 // nothing refuses a second service of a type when did:nuts is not enabled
 		}
 		switch {
 		case c < 3 || (c < 9 && len(types) == 0):
 			t := fmt.Sprintf("svc%d", len(types)+serial)
-			ep := fmt.Sprintf("https://example.com/%s/%d", s.name, serial)
+			ep := fmt.Sprintf("https://example.com/%s/%d", s.label, serial)
 			s.services[t] = ep
 			seq = append(seq, op{Kind: kAddSvc, Subject: s.name, Type: t, Endpoint: ep})
 		case c < 5:
 			t := types[rnd.Intn(len(types))]
-			ep := fmt.Sprintf("https://example.com/%s/%d", s.name, serial)
+			ep := fmt.Sprintf("https://example.com/%s/%d", s.label, serial)
 			seq = append(seq, op{Kind: kUpdSvc, Subject: s.name, Type: t, Endpoint: ep, Old: s.services[t]})
 			s.services[t] = ep
 		case c < 6:
@@ -761,7 +1019,7 @@ func genSequence(rnd *rand.Rand, idx int, cfg config) []op {
 			delete(s.services, t)
 		case c < 7:
 			t := types[rnd.Intn(len(types))]
-			seq = append(seq, op{Kind: kDupSvc, Subject: s.name, Type: t, Endpoint: fmt.Sprintf("https://example.com/%s/dup%d", s.name, serial)})
+			seq = append(seq, op{Kind: kDupSvc, Subject: s.name, Type: t, Endpoint: fmt.Sprintf("https://example.com/%s/dup%d", s.label, serial)})
 		case c < 8:
 			t := types[rnd.Intn(len(types))]
 			seq = append(seq, op{Kind: kUpdSame, Subject: s.name, Type: t, Endpoint: s.services[t], Old: s.services[t]})
@@ -774,6 +1032,36 @@ func genSequence(rnd *rand.Rand, idx int, cfg config) []op {
 			seq = append(seq, op{Kind: kDelUnknown, Subject: s.name, Type: fmt.Sprintf("unknown%d", serial), Old: "https://example.com/unknown"})
 		case c < 14:
 			seq = append(seq, op{Kind: kCreateDup, Subject: subs[rnd.Intn(len(subs))].name})
+		case c >= 16:
+			// an operation on a name that looks like the name of this subject but is the name of none; update and delete address a service this subject has
+			var pool []ghost
+			for _, g := range lookalikes(s.name) {
+				if !meta.reserved(g.Name) {
+					pool = append(pool, g)
+				}
+			}
+			g := pool[rnd.Intn(len(pool))]
+			ghostOps++
+			length++ // it is refused before anything is written: it does not count as an operation of the history
+			t, old := fmt.Sprintf("none%d", serial), "https://example.com/none"
+			if len(types) > 0 {
+				t = types[rnd.Intn(len(types))]
+				old = s.services[t]
+			}
+			o := op{Subject: g.Name, Twin: s.name, Variant: g.Class}
+			switch rnd.Intn(5) {
+			case 0:
+				o.Kind = kGhostAddVM
+			case 1:
+				o.Kind, o.Type, o.Endpoint = kGhostAddSvc, fmt.Sprintf("ghost%d", serial), fmt.Sprintf("https://example.com/%s/ghost%d", s.label, serial)
+			case 2:
+				o.Kind, o.Type, o.Endpoint, o.Old = kGhostUpdSvc, t, fmt.Sprintf("https://example.com/%s/ghost%d", s.label, serial), old
+			case 3:
+				o.Kind, o.Type, o.Old = kGhostDelSvc, t, old
+			default:
+				o.Kind = kGhostDeactivate
+			}
+			seq = append(seq, o)
 		default:
 			if len(seq) >= 3 {
 				s.dead = true
@@ -781,7 +1069,7 @@ func genSequence(rnd *rand.Rand, idx int, cfg config) []op {
 			}
 		}
 	}
-	return seq
+	return seq, meta
 }
 
 // ---- one pass: one sequence, one fault site injected at every operation ---------------------------------------------
@@ -825,12 +1113,30 @@ type pass struct {
 	rnd         *rand.Rand
 	live        map[string]bool // subjects that exist and are not deactivated, from acknowledged outcomes
 	pendingOK   bool            // change records of a stopped operation of another subject are waiting for the sweep: do not demand an empty log
+	inFlux      string          // ... and that subject: its rows are those of the stopped operation until the sweep
+	// the reference for "a name maps to at most one set of DIDs": which subject a DID belongs to, known from the operation that made the row appear in the
+	// did table (the creation of that subject, the migration of that subject) - never from the subject column or from a lookup by name
+	meta  seqMeta
+	owner map[string]string
 }
 
-func newPass(r *ev.Run, e *env, seqIdx int, seq []op, cfg config, s site, stream string) *pass {
-	return &pass{r: r, e: e, seqIdx: seqIdx, seq: seq, cfg: cfg, s: s, mgr: e.mgrs[cfg.Start], methods: methodsOf(cfg.Start),
+func newPass(r *ev.Run, e *env, seqIdx int, seq []op, meta seqMeta, cfg config, s site, stream string) *pass {
+	p := &pass{r: r, e: e, seqIdx: seqIdx, seq: seq, cfg: cfg, s: s, mgr: e.mgrs[cfg.Start], methods: methodsOf(cfg.Start),
 		didSets: map[string][]string{}, subjMethods: map[string][]string{}, abandoned: map[string]string{}, seenHash: map[string]map[int]string{},
-		maxVer: map[string]int{}, stats: map[string]int{}, orders: map[string]bool{}, rnd: r.Rand(stream), live: map[string]bool{}}
+		maxVer: map[string]int{}, stats: map[string]int{}, orders: map[string]bool{}, rnd: r.Rand(stream), live: map[string]bool{},
+		meta: meta, owner: map[string]string{}}
+	// the names observed with every snapshot: every reserved name (whether or not its subject exists yet), and look-alike names in rotation. The pass
+	// without faults goes through many of them per snapshot, the others through a few, starting at different points of the list
+	e.watch = append([]string{}, meta.Names...)
+	e.ghosts = meta.ghosts()
+	e.probeN = 1
+	if s.Name == "none" {
+		e.probeN = 16 // and FindServices as well
+	}
+	for _, c := range []byte(s.Name) {
+		e.probeAt += int(c)
+	}
+	return p
 }
 
 var passes sync.Map // goroutine id -> *pass
@@ -1030,6 +1336,118 @@ func (p *pass) invariants(o op, phase string, pre, post *snapshot) {
 	if post.ChangeLog != 0 && !p.pendingOK {
 		p.violation("C13/change-log-remains/"+o.Kind, fmt.Sprintf("%d change record(s) remain after the rollback sweep", post.ChangeLog), o, phase, pre, post, nil)
 	}
+	p.namespace(o, phase, pre, post)
+}
+
+// fresh: the rows that appeared in the did table between two snapshots.
+func fresh(pre, post *snapshot) []string {
+	var out []string
+	for _, id := range post.IDs {
+		if !contains(pre.IDs, id) {
+			out = append(out, id)
+		}
+	}
+	return out
+}
+
+func sameSet(x, y []string) bool {
+	if len(x) != len(y) {
+		return false
+	}
+	for _, v := range x {
+		if !contains(y, v) {
+			return false
+		}
+	}
+	return true
+}
+
+// namespace: a subject name maps to at most one set of DIDs. For every watched name the views of the manager (ListDIDs, Exists, List, for look-alike names
+// FindServices) are compared with the reference: the DIDs whose rows appeared while that very name was created (or migrated). A name never maps to a DID
+// of another name, the views agree with each other, a name under which nothing was created maps to nothing, and what a name that is not operated on maps
+// to does not move.
+func (p *pass) namespace(o op, phase string, pre, post *snapshot) {
+	if len(post.Names) == 0 {
+		return
+	}
+	created := map[string]bool{}
+	if o.Kind == kCreate {
+		for _, id := range fresh(pre, post) {
+			created[id] = true
+		}
+	}
+	ownerOf := func(id string) (string, bool) {
+		if s, ok := p.owner[id]; ok {
+			return s, true
+		}
+		if created[id] {
+			return o.Subject, true
+		}
+		return "", false
+	}
+	names := make([]string, 0, len(post.Names))
+	for name := range post.Names {
+		names = append(names, name)
+	}
+	sort.Strings(names)
+	for _, name := range names {
+		v := post.Names[name]
+		w := map[string]any{"name": name, "view": v, "did_table": post.Rows, "owners_known_to_the_harness": p.owner, "name_family": p.meta.Family}
+		if v.Ghost {
+			if v.Listed || v.Exists || v.Services {
+				var of []string
+				for _, id := range v.DIDs {
+					s, _ := ownerOf(id)
+					of = append(of, fmt.Sprintf("%s (subject %q)", id, s))
+				}
+				p.violation("C13/subject/unknown-name-resolves", fmt.Sprintf("no subject was ever created under the name %q (%s of %q) but the manager knows it: ListDIDs=%v Exists=%v FindServices found the subject=%v",
+					name, v.Class, p.meta.Names, of, v.Exists, v.Services), o, phase, pre, post, w)
+			}
+			continue
+		}
+		for _, id := range v.DIDs {
+			if s, ok := ownerOf(id); ok && s != name {
+				p.violation("C13/subject/lists-dids-of-another-subject", fmt.Sprintf("ListDIDs(%q) returns %s, which was created for subject %q", name, id, s), o, phase, pre, post, w)
+				break
+			}
+		}
+		if v.Exists && !v.Listed && name != o.Subject { // for the subject operated on, invariants has said so
+			p.violation("C13/list-dids/exists-without-dids", fmt.Sprintf("Exists says the subject %q exists but it lists no DIDs", name), o, phase, pre, post, w)
+		}
+		if v.Listed && !v.Exists {
+			p.violation("C13/list-dids/listed-without-exists", fmt.Sprintf("ListDIDs(%q) returns %v but Exists says there is no such subject", name, v.DIDs), o, phase, pre, post, w)
+		}
+		if all, ok := post.All[name]; ok != v.Listed || !sameSet(all, v.DIDs) {
+			p.violation("C13/subject/list-and-listdids-disagree", fmt.Sprintf("List() maps %q to %v, ListDIDs to %v", name, all, v.DIDs), o, phase, pre, post, w)
+		}
+		if name != o.Subject && name != p.inFlux {
+			var want []string
+			for id, s := range p.owner {
+				if s == name {
+					want = append(want, id)
+				}
+			}
+			sort.Strings(want)
+			if !sameSet(want, v.DIDs) {
+				p.violation("C13/subject/second-did-set", fmt.Sprintf("subject %q (not operated on) maps to %v, its DIDs are %v", name, v.DIDs, want), o, phase, pre, post, w)
+			}
+		}
+	}
+	for name := range post.All {
+		if !p.meta.reserved(name) {
+			p.violation("C13/subject/unknown-subject-listed", fmt.Sprintf("List() shows a subject %q that was never created (%v)", name, post.All[name]), o, phase, pre, post, nil)
+		}
+	}
+}
+
+// attribute records the owner of the rows that appeared in the did table during an operation that took effect.
+func (p *pass) attribute(o op, pre, post *snapshot) {
+	if o.Kind != kCreate {
+		return
+	}
+	for _, id := range fresh(pre, post) {
+		p.owner[id] = o.Subject
+	}
 }
 
 // agreement: at a quiescent point the did:nuts document in the database is the one the network side resolves (otherwise one DID of the subject shows
@@ -1193,6 +1611,10 @@ func (p *pass) plan(o op, pre *snapshot) plan {
 		return pl
 	case kCreateDup:
 		pl.early = true
+		return pl
+	}
+	if isGhost(o) {
+		pl.early = true // no subject has the name: refused inside the first transaction
 		return pl
 	}
 	for _, d := range pre.Subjects[o.Subject].DIDs {
@@ -1376,10 +1798,28 @@ func (p *pass) enableWeb() {
 		panic(err)
 	}
 	p.mgr, p.methods = p.e.mgrs[setBoth], methodsOf(setBoth)
+	rows := func() []string {
+		var all []string
+		if err := p.e.db.Raw("SELECT id FROM did ORDER BY id").Scan(&all).Error; err != nil {
+			panic(err)
+		}
+		return all
+	}
+	before := rows()
 	for _, id := range ids {
 		if err := p.mgr.MigrateAddWebToNuts(ctx(), did.MustParseDID(id)); err != nil {
 			panic(fmt.Sprintf("MigrateAddWebToNuts(%s): %v", id, err))
 		}
+		// a row that appears while this DID is migrated belongs to the subject of this DID
+		after := rows()
+		for _, row := range after {
+			if !contains(before, row) {
+				if s, ok := p.owner[id]; ok {
+					p.owner[row] = s
+				}
+			}
+		}
+		before = after
 	}
 	for name, alive := range p.live {
 		if alive { // a deactivated subject is not migrated
@@ -1541,6 +1981,10 @@ func (p *pass) run() {
 		case err != nil && !a.commitFailed && !natural:
 			p.violation("C13/further-operation-failed/"+o.Kind, "an operation without an injected failure failed: "+err.Error(), o, "first attempt", pre, post, nil)
 			return
+		case err == nil && isGhost(o):
+			// the statement does not say that an operation on a name without a subject has to fail; it cannot have changed anything
+			p.r.Unspecified("operation-on-unknown-name-accepted/" + o.Kind)
+			tookEffect = false
 		case err == nil && pl.early:
 			p.r.Unspecified("operation-expected-to-be-refused-was-accepted/" + o.Kind)
 		case err == nil && natural && onDeactivated(o):
@@ -1563,7 +2007,17 @@ func (p *pass) run() {
 			outcome = "took-effect"
 		}
 		ok := p.compare(o, pl, "after "+class+" and sweep", class, tookEffect, pre, post)
-		p.r.Case(strings.Join([]string{o.Kind, p.cfg.Start, fmt.Sprint(len(p.methods)), s.Name, outcome, fmt.Sprint(len(pre.Subjects[o.Subject].DIDs) > 0)}, "/"), fired || class == "no-fault" || class == "refusal")
+		kind := o.Kind
+		switch {
+		case isGhost(o):
+			kind += "(" + o.Variant + ")"
+		case o.Kind == kCreate || o.Kind == kCreateDup:
+			kind += "(" + p.meta.Family + " names)"
+		}
+		p.r.Case(strings.Join([]string{kind, p.cfg.Start, fmt.Sprint(len(p.methods)), s.Name, outcome, fmt.Sprint(len(pre.Subjects[o.Subject].DIDs) > 0)}, "/"), fired || class == "no-fault" || class == "refusal")
+		if isGhost(o) {
+			p.count("operations_on_a_look_alike_name_without_subject", 1)
+		}
 		if !tookEffect && ok {
 			p.abandon(a.pending, pre, o)
 		}
@@ -1578,6 +2032,7 @@ func (p *pass) run() {
 		last = post
 		if tookEffect {
 			p.settle(o)
+			p.attribute(o, pre, post)
 		}
 		if !tookEffect && !natural && !pl.early && !pl.optional {
 			// the repeated attempt
@@ -1603,6 +2058,7 @@ func (p *pass) run() {
 			}
 			last = post2
 			p.settle(o)
+			p.attribute(o, pre2, post2)
 		}
 	}
 }
@@ -1654,9 +2110,9 @@ func (p *pass) between(o op, pre *snapshot) bool {
 		p.violation("C13/further-operation-failed/"+bo.Kind, fmt.Sprintf("an operation on another subject failed while change records of a stopped operation were pending: %v", err), bo, "between stop and sweep", bpre, bpost, nil)
 		return false
 	}
-	p.pendingOK = true
+	p.pendingOK, p.inFlux = true, o.Subject
 	ok := p.compare(bo, p.plan(bo, bpre), "between stop and sweep", "no-fault", true, bpre, bpost)
-	p.pendingOK = false
+	p.pendingOK, p.inFlux = false, ""
 	p.r.Case(strings.Join([]string{bo.Kind, p.cfg.Start, fmt.Sprint(len(p.methods)), p.s.Name, "other-subject-before-sweep"}, "/"), true)
 	// the stopped operation is compared against its own "before": carry over what legitimately moved
 	pre.Rows[bo.Subject] = bpost.Rows[bo.Subject]
@@ -1702,7 +2158,7 @@ func sameSubjectBeforeSweep(t *testing.T, r *ev.Run) {
 			continue
 		}
 		for _, first := range []string{kAddVM, kAddSvc} {
-			p := newPass(r, newEnv(t), -1, nil, configs["both"], s, "same-subject")
+			p := newPass(r, newEnv(t), -1, nil, seqMeta{}, configs["both"], s, "same-subject")
 			passes.Store(id, p)
 			func() {
 				defer p.e.close()
@@ -1803,12 +2259,18 @@ func TestCheck(t *testing.T) {
 		"(stop at each boundary of transactionHelper, commit error / network refusal of the did:nuts method, stop inside the publish, failing clean-up transaction, sweep while in flight), " +
 		"then restart, ageing by SQL, the real rollback sweep, a snapshot comparison (Resolver, ListDIDs, FindServices, version rows, change log, didstore, publish ledger) against a " +
 		"reference computed from the operation and the state before it, and a retry when the operation did not take effect. A case is non-trivial when the fault of its site actually " +
-		"fired during the operation (or no fault applies); distinct by (operation kind, configuration, methods enabled, fault site, outcome, subject existed before).")
+		"fired during the operation (or no fault applies); distinct by (operation kind, configuration, methods enabled, fault site, outcome, subject existed before). " +
+		"Subject names: the subjects of sequence n get the names of one family (n picks it: plain, '_' against other characters, letter case, prefix, '.', single characters, " +
+		"numerically equal, > 255 characters differing in the last), in random order, the second subject is created by the third operation at the latest; besides them a sequence holds up to two " +
+		"operations addressed to a look-alike name under which no subject exists (other case, one character replaced by _ % . * ?, %, prefix, padding, empty ...: must not change anything). " +
+		"With every snapshot the manager is asked about every name of the sequence (ListDIDs, Exists, List) and about look-alike names in rotation (also FindServices): a name maps only to the DIDs " +
+		"whose rows appeared in the did table while that very name was created/migrated (reference kept by the harness), never to a DID of another name, the views agree, a name without subject maps to nothing.")
 	r.Require(400, 60)
 	r.Assume("a process stop is a panic that unwinds out of the manager: SqlManager and the method managers keep no state outside SQL, key store and didstore, which all survive")
 	r.Assume("the did:nuts network is a scripted stand-in that signs real DAG transactions and feeds the real ambassador/didstore synchronously; only the network method can fail to commit")
 	r.Assume("SQLite; 'older than a minute' is produced by subtracting an hour from updated_at of the rows in the change log")
 	r.Assume("a failing clean-up transaction is its first DELETE statement returning an error (gorm callback on the node's database handle)")
+	r.Assume("subject names are byte strings: two names that differ in any byte (letter case included) are two names; this is how the node on SQLite compares them")
 
 	logrus.SetLevel(logrus.WarnLevel)
 	logrus.StandardLogger().AddHook(logs)
@@ -1828,12 +2290,24 @@ func TestCheck(t *testing.T) {
 	nSeq := r.Pick(24, 160)
 	rnd := r.Rand("sequences")
 	seqs := make([][]op, nSeq)
+	metas := make([]seqMeta, nSeq)
 	nOps := 0
 	perConfig := map[string]int{}
+	perFamily := map[string]int{}
 	for i := range seqs {
-		seqs[i] = genSequence(rnd, i, configOf(i))
+		seqs[i], metas[i] = genSequence(rnd, i, configOf(i))
 		nOps += len(seqs[i])
 		perConfig[configOf(i).Name]++
+		creates := 0
+		for _, o := range seqs[i] {
+			if o.Kind == kCreate {
+				creates++
+			}
+		}
+		if creates > 1 {
+			perFamily[metas[i].Family+" / "+configOf(i).Name]++
+			r.Distinct("name_families_with_two_or_more_subjects", metas[i].Family)
+		}
 	}
 	type job struct{ seq, site int }
 	var list []job
@@ -1873,9 +2347,10 @@ func TestCheck(t *testing.T) {
 			id := sched.GoID()
 			for n := range jobs {
 				j := list[n]
-				p := newPass(r, newEnv(t), j.seq, seqs[j.seq], configOf(j.seq), sites[j.site], fmt.Sprintf("pass-%d-%d", j.seq, j.site))
+				p := newPass(r, newEnv(t), j.seq, seqs[j.seq], metas[j.seq], configOf(j.seq), sites[j.site], fmt.Sprintf("pass-%d-%d", j.seq, j.site))
 				passes.Store(id, p)
 				p.run()
+				p.count("lookups_of_look_alike_names_without_subject", p.e.probes)
 				passes.Delete(id)
 				p.e.close()
 				p.e = nil
@@ -1915,6 +2390,7 @@ func TestCheck(t *testing.T) {
 	r.Count("sequence_operations", nOps)
 	r.Count("passes", len(results))
 	r.Extra("sequences_per_configuration", perConfig)
+	r.Extra("sequences_with_look_alike_subjects_per_name_family_and_configuration", perFamily)
 	r.Extra("fault_sites", len(sites))
 	r.Extra("faults_injected_by_site_and_operation", byFault)
 	missing := []string{}
